@@ -108,6 +108,24 @@ def check_solve_flags(m, case, obj, Pref, red, leaves, safe, acc, Pplain):
     helper = {v.id for v in cols if (not is_var(v)) and v.generated_id}
     pts, feas = cfgspace.feasible_points(Pref)
     F = pts[feas]
+    try:
+        if case.get("k", 0) >= 12:
+            raise StopIteration
+        cap0 = cfgspace.CaptureEmptyLen("tag")
+        o0, _ = bind(m)
+        kw0 = dict(solver=cap0, include_virtual_variables=True)
+        if red:
+            kw0["try_reduce_before"] = True
+        res0 = list(o0.solve([dict(OBJECTIVES[1])], **kw0))
+        acc.n("transitions")
+        if len(cap0.calls) != 1 or len(res0) != 1 or {a: int(b) for a, b in res0[0][0].items()} != {i: 10 + j for j, i in enumerate(ids)}:
+            acc.violation(None, dict(case, mode="falsy-callable", try_reduce_before=red),
+                          {"what": "a solver given as a falsy callable object was not called exactly once / its vector was not reported", "calls": len(cap0.calls),
+                           "results": repr(res0)[:300], "model": show(m)})
+    except StopIteration:
+        pass
+    except BaseException as e:
+        acc.violation(None, dict(case, mode="falsy-callable", try_reduce_before=red), {"what": "solve raised with a solver given as a falsy callable object", "exc": repr(e)})
     for mode in ("exact", "tag", "none"):
         for virt in (False, True):
             cap = cfgspace.Capture(mode)
@@ -240,6 +258,24 @@ def check_select(k, tier, acc):
     dpv = np.asarray(Pref.default_prio_vector)
     pts, feas = cfgspace.feasible_points(Pref)
     F = pts[feas]
+    # the solver handed over as a callable OBJECT that happens to be falsy (an empty memoising container): being callable is the contract.
+    # A small batch, so that a library that falls back to its own solver does not stall the run.
+    # (the kind of callable is independent of the model: probed on the first 12 configurators only)
+    try:
+        if k >= 12:
+            raise StopIteration
+        cap0 = cfgspace.CaptureEmptyLen("tag")
+        cfg0, _ = bind(ast)
+        res0 = list(cfg0.select(*[dict(p) for p in prios[1:4]], solver=cap0))
+        acc.n("transitions")
+        want0 = {i: 10 + j for j, i in enumerate(ids)}
+        if len(cap0.calls) != 1 or len(res0) != 3 or any({a: int(b) for a, b in r_[0].items()} != want0 for r_ in res0):
+            acc.violation(None, dict(case, mode="falsy-callable"), {"what": "a solver given as a falsy callable object was not called exactly once / its vectors were not reported",
+                                                                    "calls": len(cap0.calls), "results": repr(res0)[:300]})
+    except StopIteration:
+        pass
+    except BaseException as e:
+        acc.violation(None, dict(case, mode="falsy-callable"), {"what": "select raised with a solver given as a falsy callable object", "exc": repr(e)})
     for mode in ("exact", "tag", "none") + tuple(("raise", e_) for e_ in range(len(cfgspace.RAISES))):
         exc_i = 0
         if isinstance(mode, tuple):
@@ -272,6 +308,10 @@ def check_select(k, tier, acc):
                 continue
             if raised:
                 acc.violation(None, cs, {"what": "select raised", "exc": raised})
+                continue
+            if len(cap.calls) != 1:
+                acc.violation(None, cs, {"what": "the supplied solver callable was not called exactly once by select()", "calls": len(cap.calls),
+                                         "solver_object": type(cap).__name__})
                 continue
             Pgot, objs = cap.calls[0]
             if not same_polyhedron(Pgot, Pref) or len(objs) != len(prios) or len(res) != len(prios):
